@@ -73,6 +73,7 @@ class Session:
         self.model = model
         self.hooks = ReplayHooks({})
         self.it = Interp(model, self.hooks)
+        self.it.max_loop = 4096             # concrete loops over tree pieces / levels, not abstract ones
         self.init = model.func(BI, "BrownianInterval.__init__")
         self.call = model.func(BI, "BrownianInterval.__call__")
         self.bcls = model.cls(BI, "BrownianInterval")
